@@ -755,6 +755,9 @@ func writeEvidence(d *h.Driver, tier string, seed uint64, runs int, stats map[st
 	if err := os.WriteFile(filepath.Join(dir, d.ID+".json"), b, 0o644); err != nil {
 		fmt.Fprintln(os.Stderr, "evidence:", err)
 	}
+	// a copy per tier, so that the record of a thorough run survives the next quick run
+	os.MkdirAll(filepath.Join(dir, tier), 0o755)
+	os.WriteFile(filepath.Join(dir, tier, d.ID+".json"), b, 0o644)
 }
 
 // selftest determinism <property> [runs] [seed]
